@@ -243,7 +243,10 @@ class Block(typing.Generic[C]):
 
                 try:
                     await waiter
-                except Exception:
+                except BaseException:
+                    # BaseException, so that a cancelled acquire() that had
+                    # already been woken up passes the wake-up on, too
+                    # (asyncio.Queue.get() does the same).
                     if not waiter.done():
                         waiter.cancel()
                     try:
